@@ -634,6 +634,17 @@ func treeWalking(c *Ctx, rule string) bool {
 				c.ok(rule, "child-eval "+s.Key, p.InstrPos(s.Call), "evaluates a child of the node being evaluated")
 				continue
 			}
+			if _, ok := evalRoots[base]; !ok {
+				// the call may sit in a helper split off the listed function
+				if parts := strings.SplitN(base, " -> ", 2); len(parts) == 2 {
+					for k := range evalRoots {
+						kp := strings.SplitN(k, " -> ", 2)
+						if len(kp) == 2 && kp[1] == parts[1] && p.inClusterOf(p.funcByShortName(kp[0]), s.Fn) {
+							base = k
+						}
+					}
+				}
+			}
 			if why, ok := evalRoots[base]; ok {
 				used[base] = true
 				c.ok(rule, "root-eval "+s.Key, p.InstrPos(s.Call), "evaluation root: "+why)
